@@ -518,7 +518,11 @@ func execL(t *testing.T, raw json.RawMessage) *sim.Outcome {
 		if e.ep > lastEp {
 			lastEp = e.ep
 		}
-		o.Logf("t=%v %s ep=%d attempt=%d %s", e.at.Round(time.Millisecond), e.kind, e.ep, e.attempt, e.detail)
+		if e.kind == "rpc" {
+			// canonical log: gRPC's own reconnect back-off draws its jitter from an unseedable source, so the
+			// number and the instants of dial events are not a function of the plan; RPC attempts are
+			o.Logf("rpc ep=%d attempt=%d %s", e.ep, e.attempt, e.detail)
+		}
 	}
 	for _, ep := range n.eps {
 		if ep.attempts > p.Cfg.Retries && p.Cfg.Retries > 0 {
